@@ -8,7 +8,7 @@ from . import common, coqterm, gen, execgen, c01, sched
 from .c04 import fresh_schema_name
 from .coqterm import coq_list, coq_string, coq_option, coq_bool
 
-C08_FILES = ["Properties/C08.v", "Proofs/AsyncProofs.v"]
+C08_FILES = ["Properties/C08.v", "Proofs/AsyncProofs.v", "Proofs/AsyncBridge.v", "Proofs/ExecRefine.v"]
 CONFIGS = [{"parent": p, "list": l, "args": a} for p in (True, False) for l in (True, False) for a in ("gather", "sync")]
 
 
